@@ -62,6 +62,24 @@ pub fn gen_stream(rng: &mut Rng, n: usize, out: &mut Vec<String>) {
 }
 pub fn gen_paged(rng: &mut Rng, n: usize, out: &mut Vec<String>) { gen_paged_x(rng, n, out, false) }
 pub fn gen_pagedstop(rng: &mut Rng, n: usize, out: &mut Vec<String>) { gen_paged_x(rng, n, out, true) }
+/// C04 x C16: the connection is lost somewhere inside a paged search (in the middle of a page, right after a page's final message, before
+/// the first item). Oracle-only: what arrived before the loss is handed over in order, then the stream fails - it never ends "normally".
+pub fn gen_pagedlost(rng: &mut Rng, n: usize, out: &mut Vec<String>) {
+    let mut base = vec![]; gen_paged_x(rng, n * 2, &mut base, false);
+    for line in base.into_iter().take(n * 2) {
+        let f: Vec<&str> = line.split(' ').collect();      // paged <size> <uc> <pages>
+        if f.len() != 4 || f[2].contains('P') { continue; }
+        let mut pages: Vec<Vec<String>> = f[3].split(';').map(|pg| pg.split(',').map(|x| x.to_string()).collect()).collect();
+        let pi = rng.below(pages.len() as u64) as usize;
+        // position 0 .. len: before the first item, between items, after the final message of that page
+        let mut pos = rng.below(pages[pi].len() as u64 + 1) as usize;
+        // after the final message of the LAST page the search is over: losing the connection then is not this lane's subject
+        if pi == pages.len() - 1 && pos == pages[pi].len() { pos -= 1; }
+        pages[pi].truncate(pos); pages[pi].push("x".into()); pages.truncate(pi + 1);
+        out.push(format!("pagedlost {} {} {}", f[1], f[2], pages.iter().map(|p| p.join(",")).collect::<Vec<_>>().join(";")));
+        if out.len() >= n { break; }
+    }
+}
 fn gen_paged_x(rng: &mut Rng, n: usize, out: &mut Vec<String>, early: bool) {
     for i in 0..n {
         let total = rng.below(30) as usize; let psize = 1 + rng.below(8) as usize;
@@ -219,6 +237,8 @@ async fn run_paged(args: &[String]) -> (String, Option<String>) {
                     let mut outb = vec![];
                     for it in &pages2[pi] {
                         if it == "w" { break; }
+                        // "x": the connection is lost at this point of the page (what was sent before it arrives)
+                        if it == "x" { let _ = server.write_all(&outb).await; let _ = server.shutdown().await; return; }
                         let rest = &it[1..];
                         match it.as_bytes()[0] { b'e' => outb.extend(item_msg(id, 'e', rest.parse().unwrap(), &[])), b'r' => outb.extend(item_msg(id, 'r', rest.parse().unwrap(), &[])), b'i' => outb.extend(item_msg(id, 'i', rest.parse().unwrap(), &[])),
                             _ => { let f: Vec<&str> = rest.split('.').collect(); let mut cs = vec![];
@@ -258,19 +278,23 @@ async fn run_paged(args: &[String]) -> (String, Option<String>) {
     let mut oracle = None;
     if with_paged { oracle = Some("a caller-supplied paging control was not rejected".into()); }
     else {
-        let mut want_items: Vec<String> = pages.iter().flat_map(|pg| pg.iter().filter(|x| !x.starts_with('d') && *x != "w").cloned()).collect();
+        let lost = pages.iter().any(|pg| pg.iter().any(|x| x == "x"));
+        let mut want_items: Vec<String> = vec![];
+        'pg: for pg in &pages { for x in pg { if x == "x" { break 'pg; } if !x.starts_with('d') && x != "w" { want_items.push(x.clone()); } } }
         let want_refs: Vec<String> = want_items.iter().filter(|x| x.starts_with('r')).map(|x| x[1..].to_string()).collect();
         if chained { want_items.retain(|x| x.starts_with('e')); }
         if let Some(k) = stop { want_items.truncate(k); }
-        if chained && stop.is_none() { let got: Vec<String> = res.refs.iter().map(|u| u.trim_start_matches("ldap://t").to_string()).collect();
+        if chained && stop.is_none() && !lost { let got: Vec<String> = res.refs.iter().map(|u| u.trim_start_matches("ldap://t").to_string()).collect();
             if got != want_refs { oracle = Some(format!("behind EntriesOnly the final result must carry the reference URIs of all pages {:?} but carries {:?}", want_refs, got)); } }
         // C13: the search is over (read to the end, or finished early): no id reserved, no routing entry left
-        if left != "//" { oracle = Some(format!("the paged search is finished but ids/routing entries {} are left behind", left)); }
+        if left != "//" && !lost { oracle = Some(format!("the paged search is finished but ids/routing entries {} are left behind", left)); }
+        // C04: a connection lost in the middle of a page, or between two pages, ends the stream with an error - it must not look like the end
+        if lost && stop.is_none() && end != "error" { oracle.get_or_insert(format!("the connection was lost before the search was over but the stream ended with '{}' (rc {})", end, res.rc)); }
         // C10: finished before the end, the result is the synthetic cancellation (88), never a page's own result
         if stop.is_some() && end != "done" && res.rc != 88 { oracle.get_or_insert(format!("finish() before the end of a paged search must return code 88 but returned {} (paging control in it: {})", res.rc, paged_in_final)); }
         if items != want_items { oracle = Some(format!("the adapter must yield the concatenation of all pages {:?} but yielded {:?}", want_items, items)); }
         let lg = log.lock().unwrap();
-        if stop.is_none() && lg.len() != pages.len() { oracle.get_or_insert(format!("{} pages scripted but {} requests were sent", pages.len(), lg.len())); }
+        if stop.is_none() && !lost && lg.len() != pages.len() { oracle.get_or_insert(format!("{} pages scripted but {} requests were sent", pages.len(), lg.len())); }
         for (i, e) in lg.iter().enumerate() {
             let f: Vec<&str> = e.split('/').collect();
             let want_ck = if i == 0 { "-".to_string() } else { pages[i - 1].last().unwrap()[1..].split('.').nth(1).unwrap().to_string() };
